@@ -75,6 +75,12 @@ def run(prop, tier, cfg):
             cases = re.search(r'VP-NATIVE %s(?:_contract|_spec|_model)? cases=(\d+)' % re.escape(re.sub(r'(_contract|_spec|_model)$', '', t['name'].replace('vp_native_', ''))), txt)
             rec = {'harness': t['name'], 'bound': t.get('bound', ''), 'result': 'ERROR', 'cases': int(cases.group(1)) if cases else None,
                    'back_end': 'native execution of the real code'}
+            # a stack overflow aborts the whole test process: no result lines at all, but the runtime names the thread, and a check's
+            # body runs on a thread named after the check
+            so = re.search(r"thread '[^']*%s'[^\n]* has overflowed its stack" % re.escape(t['name']), txt)
+            if so and not m:
+                m = re.match('(FAILED)', 'FAILED')
+                txt = txt + "\nthread '%s' panicked at the code under test:\nstack overflow - the process was aborted (fatal runtime error)\n" % t['name']
             if m and m.group(1) == 'ok':
                 rec['result'] = 'SUCCESSFUL'
             elif m:
